@@ -186,12 +186,12 @@ class FormulaTransformer(m.MatcherDecoratableTransformer):
                 raise RuntimeError(f"scope not found for {n.value}")
             scope = self.node_to_scope.get(n, None)
 
-        i = next(i for i, v in enumerate(self.scopes) if scope == v)
-
-        n_to_s = self.name_to_symbol[i]
+        # A comprehension inlined by PEP 709 has no symbol table.
+        # Its names are looked up in the table of the enclosing scope.
+        n_to_s = self.name_to_symbol[self.scopes.index(scope)]
         while n_to_s is None:
-            i -= 1
-            n_to_s = self.name_to_symbol[i]
+            scope = scope.parent
+            n_to_s = self.name_to_symbol[self.scopes.index(scope)]
 
         symbol = n_to_s.get(node.value, None)
         if symbol:
